@@ -124,6 +124,10 @@ func genGR(seed uint64, tier, mode string) *Script {
 			}
 			if mode == "llgr" && g.p(20) {
 				o.Arg = "nollgr"
+			} else if g.p(35) {
+				// what was announced for this prefix before goes out again unchanged (what a
+				// restarted neighbour does with most of its table)
+				o.Arg = "same"
 			}
 			add(o)
 		}
@@ -484,6 +488,10 @@ func grOp(w *simWorld, actor int, op *Op) {
 			spec.Comms = []uint32{0xffff0007}
 		}
 		r := &annRoute{Tag: mkTag(0, st.serial), Fam: fam, Prefix: op.Prefix, Spec: spec, Src: 0}
+		if old := st.routes[viewKey{fam, 0, op.Prefix}]; op.Arg == "same" && old != nil {
+			r = &annRoute{Tag: old.r.Tag, Fam: fam, Prefix: op.Prefix, Spec: old.r.Spec, Src: 0}
+			w.probe("identical_reannouncement")
+		}
 		w.mu.Lock()
 		w.tags[r.Tag] = r
 		w.mu.Unlock()
